@@ -90,6 +90,21 @@ theorem firstWrongResult_of_all {rs : List (Nat × FileResult)} {tags : List Fil
     rw [ih (fun i hi => h i (by omega))]
     simp only [if_pos (h n (by omega))]
 
+theorem resultOf_mem {rs : List (Nat × FileResult)} {i : Nat} {r : FileResult}
+    (h : resultOf rs i = some r) : (i, r) ∈ rs := by
+  induction rs with
+  | nil => simp [resultOf] at h
+  | cons p rest ih =>
+    obtain ⟨k, q⟩ := p
+    simp only [resultOf] at h
+    by_cases hk : k = i
+    · rw [if_pos hk] at h
+      cases h
+      rw [hk]
+      exact List.mem_cons_self
+    · rw [if_neg hk] at h
+      exact List.mem_cons_of_mem _ (ih h)
+
 /-- what a positive answer of the checker means -/
 structure TraceOk (c : DCfg) (labels : List DLabel) (observed : List CEv) (tags : List FileResult)
     (exitZero : Bool) (s : DSt) : Prop where
